@@ -622,9 +622,10 @@ func buildIRT(s relShape) []byte {
 // ----------------------------------------------------------------------------------------------------- outlines
 
 type outlineShape struct {
-	n                 int
-	first, next, prev func(i int) int
-	last              int
+	n                        int
+	first, ilast, next, prev func(i int) int
+	rfirst, last             int  // the root's First (0: item 1) and Last
+	rt                       bool // the root also carries a title and a destination
 }
 
 func buildOutline(o outlineShape) []byte {
@@ -648,13 +649,25 @@ func buildOutline(o outlineShape) []byte {
 	}
 	for i := 1; i <= o.n; i++ {
 		f := o.first(i)
-		body := fmt.Sprintf("<< /Title (N%d) /Dest [%d 0 R /Fit] /Parent %d 0 R", i, pn[0], root) + r("First", f) + r("Last", f) + r("Next", o.next(i)) + r("Prev", o.prev(i))
+		l := f
+		if o.ilast != nil {
+			l = o.ilast(i)
+		}
+		body := fmt.Sprintf("<< /Title (N%d) /Dest [%d 0 R /Fit] /Parent %d 0 R", i, pn[0], root) + r("First", f) + r("Last", l) + r("Next", o.next(i)) + r("Prev", o.prev(i))
 		if f != tNone {
 			body += " /Count 1"
 		}
 		d.set(nums[i], body+" >>")
 	}
-	d.setf(root, "<< /Type /Outlines%s%s /Count %d >>", r("First", 1), r("Last", o.last), o.n)
+	rf := o.rfirst
+	if rf == tNone {
+		rf = 1
+	}
+	extra := ""
+	if o.rt {
+		extra = fmt.Sprintf(" /Title (N0) /Dest [%d 0 R /Fit]", pn[0])
+	}
+	d.setf(root, "<< /Type /Outlines%s%s%s /Count %d >>", extra, r("First", rf), r("Last", o.last), o.n)
 	d.setCatalog(cat, pages, fmt.Sprintf("/Outlines %d 0 R /PageMode /UseOutlines", root))
 	return d.classic()
 }
